@@ -162,6 +162,12 @@ func runGraphCase(c fw.Case, oracles func(lr *LifeRun, ix *lifeIndex, r *fw.Resu
 	if lr.Outcome == sim.RunHang {
 		r.Dirty = true
 	}
+	if lr.Outcome == sim.RunStalled {
+		// a command is alive, nothing will end it and no event flows: not a
+		// verdict by itself (the order/absence oracles still judge the log)
+		r.Dirty = true
+		r.Count("stalled_with_live_command", 1)
+	}
 	oracles(lr, ix, &r)
 	r.NonTrivial = nontrivial(lr, ix)
 	r.Sig = sim.Signature(lr.Events, sigKinds...)
